@@ -158,7 +158,17 @@ func drawFault(tp *tape.Tape, fresh func() string) fault {
 		if s == "\"abc" { // unterminated string without newline spins the lexer (C06, unclaimed): keep out
 			s = "1 +)"
 		}
-		return fault{a: s, tag: "F2.garbage", open: strings.Count(s, "{") > strings.Count(s, "}") || strings.Count(s, "[") > strings.Count(s, "]")}
+		f := fault{a: s, tag: "F2.garbage", open: strings.Count(s, "{") > strings.Count(s, "}") || strings.Count(s, "[") > strings.Count(s, "]")}
+		if tp.Draw(3) == 0 {
+			// a well-formed statement followed by a syntax error on the same line: the input as a
+			// whole does not parse, so none of it may take effect ("parse errors add no code")
+			v := fresh()
+			f.a = fmt.Sprintf("%s = %d %s", v, 100+tp.Draw(900), []string{")", "}", "]", "$", "= 2", "else"}[tp.Draw(6)])
+			f.open = false
+			f.tag = "F2.statement_then_syntax_error"
+			f.probes = []string{"write(toa(" + v + "))"}
+		}
+		return f
 	}
 }
 
@@ -345,8 +355,17 @@ func (C08) Run(tp *tape.Tape) core.Result {
 	if streamPhase && faultRate > 0 && !sawBudget {
 		r.Inc("stream.histories_through_node_Loop", 1)
 		h.Notes = "stream phase: the steps above, each followed by write(\"\\n@@i@@\\n\"), through node.Loop over a real file; failing steps replaced by their completed prefix for twin B"
-		if v := c08Stream(lsteps, nDefs, sw.Repl, &r, h, &trace); v != nil {
+		if v := c08Stream(lsteps, nDefs, sw.Repl, false, &r, h, &trace); v != nil {
 			r.Violation = v
+		} else if tp.Draw(12) == 0 {
+			// and through the built binary as a REPL fed from a file
+			if _, err := os.Stat(CalcBinary); err == nil {
+				r.Inc("stream.histories_through_cmd_calc_repl", 1)
+				if v := c08Stream(lsteps, nDefs, true, true, &r, h, &trace); v != nil {
+					v.Clause = "binary-" + v.Clause
+					r.Violation = v
+				}
+			}
 		}
 	}
 done:
@@ -385,7 +404,14 @@ type lstep struct {
 // c08Stream runs the stream phase of C08: the same history through the real read-eval loop
 // (node.Loop + FReader + processInput) on a real file, once with the failing statements and once
 // with their completed prefixes; a marker statement after every step delimits its output.
-func c08Stream(lsteps []lstep, nDefs int, repl bool, r *core.Result, h *Hist, digest *core.Hash64) *core.Violation {
+func c08Stream(lsteps []lstep, nDefs int, repl, binary bool, r *core.Result, h *Hist, digest *core.Hash64) *core.Violation {
+	if binary {
+		repl = true
+	}
+	where := "node.Loop"
+	if binary {
+		where = "the cmd/calc REPL"
+	}
 	// Stream phase: the same history through the real read-eval loop (node.Loop + FReader +
 	// processInput) on a real file, once with the failing statements and once with their
 	// completed prefixes; a marker statement after every step delimits its output.
@@ -405,15 +431,27 @@ func c08Stream(lsteps []lstep, nDefs int, repl bool, r *core.Result, h *Hist, di
 		}
 		return b.String()
 	}
-	runLoop := func(text string) (segs []string, pmsg string) {
+	exec := func(text string) (out string, pmsg string) {
 		f, err := os.CreateTemp(shmDir(), "simcalc-c08-*")
 		if err != nil {
-			return nil, "tempfile: " + err.Error()
+			return "", "tempfile: " + err.Error()
 		}
 		name := f.Name()
 		f.WriteString(text)
 		f.Close()
 		defer os.Remove(name)
+		if binary {
+			// the built cmd/calc as a REPL, standard input redirected from the file (readline's
+			// non-terminal path: lines arrive without their line break, unlike file mode)
+			o, code, hung := runBinary(name, nil)
+			if hung {
+				return o, "cmd/calc did not terminate"
+			}
+			if code != 0 {
+				return o, fmt.Sprintf("cmd/calc ended with exit status %d", code)
+			}
+			return strings.TrimPrefix(o, "calc repl\n"), ""
+		}
 		defer func() {
 			if p := recover(); p != nil {
 				pmsg = fmt.Sprint(p)
@@ -427,7 +465,13 @@ func c08Stream(lsteps []lstep, nDefs int, repl bool, r *core.Result, h *Hist, di
 		defer fr.Close()
 		node.Loop(fr, parser.Type{}, s.VM, repl)
 		r.Instructions += s.Steps
-		out := sess.TakeOutput()
+		return sess.TakeOutput(), ""
+	}
+	runLoop := func(text string) (segs []string, pmsg string) {
+		out, pmsg := exec(text)
+		if pmsg != "" {
+			return []string{out}, pmsg
+		}
 		for i := range lsteps {
 			if i < nDefs-1 {
 				segs = append(segs, "")
@@ -468,7 +512,7 @@ func c08Stream(lsteps []lstep, nDefs int, repl bool, r *core.Result, h *Hist, di
 			*digest = digest.Str(ca)
 		}
 		if ca != cb {
-			r.Violation = &core.Violation{Clause: "stream-twin-differs", Detail: fmt.Sprintf("step %d %q through node.Loop: after the failures it printed %q, in the failure-free stream %q", i, trunc(st.a, 60), trunc(ca, 200), trunc(cb, 200)), History: h}
+			r.Violation = &core.Violation{Clause: "stream-twin-differs", Detail: fmt.Sprintf("step %d %q through %s: after the failures it printed %q, in the failure-free stream %q", i, trunc(st.a, 60), where, trunc(ca, 200), trunc(cb, 200)), History: h}
 			return r.Violation
 		}
 	}
@@ -493,6 +537,12 @@ func (C08) RunScript(raw json.RawMessage) core.Result {
 			ls = append(ls, lstep{st, st, true})
 		}
 	}
-	c08Stream(ls, 0, sc.Flavour == "repl", &r, h, nil)
+	if c08Stream(ls, 0, sc.Flavour == "repl", false, &r, h, nil) == nil {
+		if _, err := os.Stat(CalcBinary); err == nil {
+			if v := c08Stream(ls, 0, true, true, &r, h, nil); v != nil {
+				v.Clause = "binary-" + v.Clause
+			}
+		}
+	}
 	return r
 }
